@@ -232,7 +232,13 @@ void h_delete_leaf(void)
 	ref = an_ref(&d);
 	*ref = &d_an;
 
+	d_par.height = d.h_an;		/* any recorded height */
+	d_par.parent = (struct iv_avl_node *)(uintptr_t)8;
+
 	r = iv_avl_tree_delete_leaf(&d_tree, &d_an);
+
+	__CPROVER_assert(d_par.height == d.h_an && d_par.parent == (struct iv_avl_node *)(uintptr_t)8 && d_sib1.height == 3,
+			 "[C16] the unlink step records no height: the parent still carries the height from before the deletion, which is the loop-head state of the rebalancing walk (that side shrunk by one)");
 
 	__CPROVER_assert(*ref == NULL, "[C16] deleting a leaf clears exactly the reference that pointed to it");
 	__CPROVER_assert(r == (d.an_has_parent ? &d_par : NULL), "[C16] rebalancing starts at the leaf's parent");
@@ -300,8 +306,13 @@ void h_delete_nonleaf(void)
 		SET_AWAY(victim, NULL);
 	}
 	vparent = victim->parent;
+	d_par.height = 77;
 
 	r = iv_avl_tree_delete_nonleaf(&d_tree, &d_an);
+
+	__CPROVER_assert(d_par.height == 77 && IMPLIES(victim != &d_L, d_L.height == (left_side ? d.hl : d.hr)) &&
+			 IMPLIES(d.chain >= 2, d_c1.height == 5) && d_sib2.height == 2 && IMPLIES(d.victim_has_child, d_vc.height == 1),
+			 "[C16] the unlink step records no height except the one the victim inherits: every node on the path from the victim's old place upwards still carries the height from before the deletion, which is the loop-head state of the rebalancing walk (that side shrunk by one)");
 
 	__CPROVER_assert(*ref == victim && victim->parent == d_an.parent, "[C16] the in-order neighbour (victim) takes the deleted node's place under its parent");
 	__CPROVER_assert(victim->height == d.h_an, "[C16] and its recorded height (the rebalancing walk recomputes it)");
